@@ -723,7 +723,7 @@ func ruleTableFacts(c *km.Ctx, s *km.Sem, k km.Conj, bound map[*ssa.Parameter]ss
 			continue
 		}
 		base, fld, isFld := km.FieldOfLoad(km.Unwrap(dyn.Common().Value))
-		if !isFld || km.CellOrigin(base) != ssa.Value(h.Params[0]) {
+		if !isFld || km.CellOrigin(base) != ssa.Value(km.ParamAt(h, 0)) {
 			continue
 		}
 		// the operands handed to every entry, in the filter's frame
